@@ -775,6 +775,9 @@ func init() {
 	mc.Register(&mc.Check{
 		ID:    "C06",
 		Level: "model_checking",
+		// most generated programs END in the rejection they are about (use before declaration,
+		// redeclaration, assignment to a read-only name): about one in eight completes (measured)
+		MinRefCompleted: 0.04,
 		Rule: "E2: breadth-first search over histories of {begin, end, declare x|y, declare-const x|y, set x|y, declare/set of predefined names} on the real runtime.VM symbol table; every successor is built by replaying its history on a fresh VM; dedup on the model state after the observation battery (both lookups, block depth, live symbols) agreed; step error codes 42/43/44 and the observation are compared with a stack-of-maps model in every state. " +
 			"Depth family: for every depth 1..300 (700 thorough): begin x d, declare, end x d on the symbol table (with and without an outer declaration of the same name) against the model, and four recursive programs d calls deep whose input / local are named like caller variables (plain, call as an operand, a local per level, a method of an object): after the calls return the caller reads its own values and every block has ended. Many names: 16 sets of 60 000 (8 of 125 000 thorough) distinct six-character names alive at once on the symbol table, half in an outer and half in an inner block: undefined before its declaration, accepted, reads back its own value, assignments stay with their own name, inner names gone and outer ones kept after the block. " +
 			"E1: every statement tree <= k nodes (nesting <= 3) over 21 actions (a method / a type defined in the block under the name of a variable, a failing built-in method call, declare, declare from the same outer name, constant, assign, probe on 甲 乙 参, predefined names, 得到 in both call forms, assignment to a method / type name) inside 7 block kinds (branch, branch whose condition binds a name with 得到, one-pass 每当, one-element 遍历, method call, method ending in a handled exception, recursion depth 3), real interpreter vs reference interpreter on trace, error code and final scope/call depth.",
